@@ -74,12 +74,35 @@ func (t *trace) nextCore() int {
 // ---- reference interpreter --------------------------------------------------------------
 
 type interp struct {
-	prog    []kind
-	t       *trace
-	coreCtx bool // whether the innermost stage can observe the context marker
+	prog     []kind
+	t        *trace
+	coreCtx  bool   // whether the innermost stage can observe the context marker
+	msgLevel bool   // the stages wrap whole messages (a failed item is then inside a normal response)
+	core     string // "" = answers; "panic" = the handler panics; "error" = it returns an error; "version" = the core rejects the message's protocol version
 }
 
+// what the innermost stage gets back from a core that does not answer
+const (
+	panicText   = "boom"
+	errorText   = "handler-error"
+	versionText = "Unsupported protocol version"
+)
+
 func (in *interp) run(i int, ctx, msg string) (res string, err string) {
+	if i == len(in.prog) && in.core == "version" {
+		return "", versionText // rejected by the core handler before any operation handler runs
+	}
+	if i == len(in.prog) && in.core != "" {
+		in.t.nextCore()
+		in.t.log("core msg=%s ctx=%s", msg, ctx)
+		if in.core == "panic" {
+			return "failed:" + panicText, "" // the panic comes back as a failed result, not as a panic
+		}
+		if in.coreMsgLevel() {
+			return "failed:" + errorText, "" // at message level a failed item is part of a normal response
+		}
+		return "", errorText
+	}
 	if i == len(in.prog) {
 		n := in.t.nextCore()
 		if in.coreCtx {
@@ -122,6 +145,8 @@ func (in *interp) run(i int, ctx, msg string) (res string, err string) {
 	return res, err
 }
 
+func (in *interp) coreMsgLevel() bool { return in.msgLevel }
+
 // ---- real stages (generic over the three chains) -------------------------------------------
 
 type ctxKey struct{}
@@ -145,6 +170,10 @@ func stage[M any, R any](k kind, i int, t *trace, o ops[M, R]) func(next func(co
 		t.log("enter s%d msg=%s ctx=%s", i, o.idOf(m), marker(ctx))
 		runtime.Gosched()
 		defer func() {
+			if pv := recover(); pv != nil {
+				t.log("unwound s%d by a panic: %v", i, pv)
+				panic(pv)
+			}
 			rid, es := "", ""
 			if err != nil {
 				es = err.Error()
@@ -213,7 +242,11 @@ func payloadID(p kmip.OperationPayload) string {
 }
 
 func reqMsg(id string) *kmip.RequestMessage {
-	return &kmip.RequestMessage{Header: kmip.RequestHeader{ProtocolVersion: kmip.V1_4, BatchCount: 1},
+	v := kmip.V1_4
+	if strings.HasPrefix(id, "V") {
+		v = kmip.ProtocolVersion{ProtocolVersionMajor: 2, ProtocolVersionMinor: 0} // not supported by the executor
+	}
+	return &kmip.RequestMessage{Header: kmip.RequestHeader{ProtocolVersion: v, BatchCount: 1},
 		BatchItem: []kmip.RequestBatchItem{{Operation: kmip.OperationActivate, RequestPayload: &payloads.ActivateRequestPayload{UniqueIdentifier: id}}}}
 }
 
@@ -223,10 +256,17 @@ func respMsg(id string) *kmip.ResponseMessage {
 }
 
 var msgOps = ops[*kmip.RequestMessage, *kmip.ResponseMessage]{
-	idOf:   func(m *kmip.RequestMessage) string { return payloadID(m.BatchItem[0].RequestPayload) },
-	withID: func(m *kmip.RequestMessage, id string) *kmip.RequestMessage { n := reqMsg(id); n.Header = m.Header; return n },
+	idOf: func(m *kmip.RequestMessage) string { return payloadID(m.BatchItem[0].RequestPayload) },
+	withID: func(m *kmip.RequestMessage, id string) *kmip.RequestMessage {
+		n := reqMsg(id)
+		n.Header = m.Header
+		return n
+	},
 	respID: func(r *kmip.ResponseMessage) string {
-		if len(r.BatchItem) == 0 || r.BatchItem[0].ResponsePayload == nil {
+		if len(r.BatchItem) == 0 {
+			return "failed:no item"
+		}
+		if r.BatchItem[0].ResponsePayload == nil || r.BatchItem[0].ResultStatus != kmip.ResultStatusSuccess {
 			return "failed:" + r.BatchItem[0].ResultMessage
 		}
 		return payloadID(r.BatchItem[0].ResponsePayload)
@@ -242,7 +282,7 @@ var itemOps = ops[*kmip.RequestBatchItem, *kmip.ResponseBatchItem]{
 		return &kmip.RequestBatchItem{Operation: m.Operation, UniqueBatchItemID: m.UniqueBatchItemID, RequestPayload: &payloads.ActivateRequestPayload{UniqueIdentifier: id}}
 	},
 	respID: func(r *kmip.ResponseBatchItem) string {
-		if r.ResponsePayload == nil {
+		if r.ResponsePayload == nil || r.ResultStatus != kmip.ResultStatusSuccess {
 			return "failed:" + r.ResultMessage
 		}
 		return payloadID(r.ResponsePayload)
@@ -318,6 +358,12 @@ func coreHandler(reg *registry) kmipserver.OperationHandler {
 		t := reg.get(req.UniqueIdentifier)
 		n := t.nextCore()
 		t.log("core msg=%s ctx=%s", req.UniqueIdentifier, marker(ctx))
+		switch {
+		case strings.HasPrefix(req.UniqueIdentifier, "P"):
+			panic(panicText)
+		case strings.HasPrefix(req.UniqueIdentifier, "E"):
+			return nil, errors.New(errorText)
+		}
 		return &payloads.ActivateResponsePayload{UniqueIdentifier: fmt.Sprintf("resp(%s)#%d", req.UniqueIdentifier, n)}, nil
 	})
 }
@@ -425,7 +471,14 @@ func progCount(maxLen int) int {
 }
 
 func runProgram(c *core.Ctx, chainIdx int, prog []kind, concurrent int) {
+	runProgramCore(c, chainIdx, prog, concurrent, "")
+}
+
+// runProgramCore: coreMode "" (the core answers), "panic", "error" (operation handler) or "version" (the core
+// handler rejects the message); server chains only for the non-empty modes.
+func runProgramCore(c *core.Ctx, chainIdx int, prog []kind, concurrent int, coreMode string) {
 	ch := chains[chainIdx]
+	prefix := map[string]string{"": "", "panic": "P", "error": "E", "version": "V"}[coreMode]
 	reg := &registry{m: map[string]*trace{}}
 	var run runner
 	var done func()
@@ -434,8 +487,12 @@ func runProgram(c *core.Ctx, chainIdx int, prog []kind, concurrent int) {
 	}
 	defer done()
 	label := ch.name + " " + progString(prog)
+	if coreMode != "" {
+		label += " core=" + coreMode
+	}
 	c.Distinct(core.Hash64(label))
 	one := func(base string) {
+		base = prefix + base
 		t := &trace{}
 		reg.put(base, t)
 		var res, errS string
@@ -444,8 +501,14 @@ func runProgram(c *core.Ctx, chainIdx int, prog []kind, concurrent int) {
 			return
 		}
 		want := &trace{}
-		in := &interp{prog: prog, t: want, coreCtx: ch.coreCtx}
+		in := &interp{prog: prog, t: want, coreCtx: ch.coreCtx, core: coreMode, msgLevel: ch.name == "server-message"}
 		wres, werr := in.run(0, "c", base)
+		if strings.HasPrefix(wres, "failed:") {
+			wres, werr = "", strings.TrimPrefix(wres, "failed:") // a failed item is reported as an error by the runners
+		}
+		if coreMode != "" {
+			c.Count("programs_run.core-"+coreMode, 1)
+		}
 		c.Count("programs_run", 1)
 		c.Count("programs_run."+ch.name, 1)
 		c.Count("events", int64(len(want.events)))
@@ -480,6 +543,9 @@ func runProgram(c *core.Ctx, chainIdx int, prog []kind, concurrent int) {
 					}
 				}
 			}
+			if coreMode != "" {
+				cls = "trace-differs:core-" + coreMode
+			}
 			c.Violation("C19:"+ch.name+":"+cls, fmt.Sprintf("recorded trace differs from the reference semantics for %s", label), map[string]any{"recorded": got, "reference": wantEv})
 			return
 		}
@@ -512,7 +578,7 @@ func Spec() *core.Spec {
 		Rule: "all programs of length 0..3 (quick) / 0..4 (thorough) over 10 stage kinds {pass, call next 2x, 3x, call next twice concurrently (hedged; judged on the multiset of events), short-circuit with response, short-circuit with error, replace message, replace context, fail after next, rewrite response} " +
 			"for the client chain (scripted server as transport), the server message chain and the server batch-item chain; every program run once alone and once from 16 goroutines sharing the chain (race detector on); " +
 			"the recorded enter/core/exit trace of every request must equal the trace of a reference interpreter, event for event. distinct = distinct (chain, program)",
-		Required: []string{"programs_run.client", "programs_run.server-message", "programs_run.server-batch-item", "concurrent_runs", "events", "hedged_programs_run"},
+		Required: []string{"programs_run.client", "programs_run.server-message", "programs_run.server-batch-item", "concurrent_runs", "events", "hedged_programs_run", "programs_run.core-panic", "programs_run.core-error", "programs_run.core-version"},
 		Families: []core.Family{
 			{Name: "programs", Exhaustive: true, N: func(tier string) int {
 				if tier == core.Thorough {
@@ -531,6 +597,15 @@ func Spec() *core.Spec {
 				}
 				runProgram(c, chainIdx, prog, 1)
 				runProgram(c, chainIdx, prog, 16)
+				// the same program over a core that does not answer: the operation handler panics or fails (both server
+				// chains), the core handler rejects the protocol version (message chain)
+				if chainIdx > 0 && len(prog) <= 3 {
+					runProgramCore(c, chainIdx, prog, 1, "panic")
+					runProgramCore(c, chainIdx, prog, 1, "error")
+					if chainIdx == 1 {
+						runProgramCore(c, chainIdx, prog, 1, "version")
+					}
+				}
 				if i%401 == 0 {
 					c.Sample(chains[chainIdx].name + " " + progString(prog))
 				}
